@@ -2,7 +2,7 @@
 From Coq Require Import NArith ZArith QArith List Bool.
 From Coq Require Import Floats.SpecFloat.
 From AJ Require Import Model.Base Model.FloatModel Model.Value Model.NumParse Model.Convert.
-From AJ Require Import Proofs.NumProofs.
+From AJ Require Import Proofs.NumProofs Proofs.CopyArrayProofs.
 From AJ Require Gen.Config.
 From Coq Require Import Reals.
 From Flocq Require Import Core.
@@ -78,6 +78,41 @@ Print Assumptions C13_int_to_float_exact_when_it_fits.
 Theorem C13_strings_any_length : forall cf s, parse_number cf s <> NumFault.
 Proof. exact parse_number_no_fault. Qed.
 Print Assumptions C13_strings_any_length.
+
+(* copyArray never writes beyond the destination it was given (Model/Convert.v mirrors Array/Utilities.hpp; the
+   destination is the list of its current elements): same length afterwards, the first min(size, len) elements are
+   as<T>() of the source elements, everything from the returned count on is untouched *)
+Theorem C13_copyArray_1d_in_bounds : forall c t src dst,
+  length (fst (copy_array_1d c t src dst)) = length dst /\
+  snd (copy_array_1d c t src dst) = Nat.min (length (elems_of src)) (length dst) /\
+  skipn (snd (copy_array_1d c t src dst)) (fst (copy_array_1d c t src dst)) = skipn (snd (copy_array_1d c t src dst)) dst /\
+  (forall i, (i < snd (copy_array_1d c t src dst))%nat ->
+     nth_error (fst (copy_array_1d c t src dst)) i = option_map (as_int c t) (nth_error (elems_of src) i)).
+Proof.
+  intros c t src dst. split; [apply copy_1d_length|]. split; [reflexivity|]. split; [apply copy_1d_tail|].
+  intros i Hi. apply copy_1d_head. exact Hi.
+Qed.
+Print Assumptions C13_copyArray_1d_in_bounds.
+
+(* two-dimensional destination: the number of rows and the length of every row are unchanged, rows beyond the source
+   are untouched *)
+Theorem C13_copyArray_2d_in_bounds : forall c t src dst,
+  length (fst (copy_array_2d c t src dst)) = length dst /\
+  map (@length Z) (fst (copy_array_2d c t src dst)) = map (@length Z) dst /\
+  skipn (length (elems_of src)) (fst (copy_array_2d c t src dst)) = skipn (length (elems_of src)) dst.
+Proof.
+  intros c t src dst. unfold copy_array_2d. cbn [fst].
+  split; [apply copy_rows_length|]. split; [apply copy_rows_row_lengths|apply copy_rows_tail].
+Qed.
+Print Assumptions C13_copyArray_2d_in_bounds.
+
+(* char destination of N >= 1 bytes: N bytes afterwards, NUL-terminated within them, a prefix of the string before *)
+Theorem C13_copyArray_string_in_bounds : forall src dst, (1 <= length dst)%nat ->
+  length (copy_string src dst) = length dst /\
+  exists len, (len <= length dst - 1)%nat /\ nth_error (copy_string src dst) len = Some 0%N /\
+    firstn len (copy_string src dst) = firstn len (match src with JStr s => s | _ => [] end).
+Proof. intros src dst H. split; [apply copy_string_length; exact H | apply copy_string_terminated; exact H]. Qed.
+Print Assumptions C13_copyArray_string_in_bounds.
 
 (* tie T: the highest_for constants guarding the casts are those of the source *)
 Theorem C13_source_agrees :
